@@ -1,6 +1,10 @@
 import Lean.Data.Json
 import XModel.Madx
-/-! Line-protocol suite `madx`: lark's token stream → the model's parse tree. -/
+import XModel.MadxAssign
+import Driver.OptD
+/-! Line-protocol suite `madx`: lark's token stream → the model's parse tree; for statement lists
+    (`stmt_tokens`): the values of the assigned variables after the statements and after every later plain update,
+    under the deferred and the immediate semantics of `XModel/MadxAssign.lean`, over IEEE doubles. -/
 namespace DMadx
 open Lean Madx
 
@@ -30,7 +34,170 @@ partial def treeJson : MTree → Json
   | .div l r => .arr #[.str "div", treeJson l, treeJson r]
   | .pow l r => .arr #[.str "pow", treeJson l, treeJson r]
 
+/-! ### the value algebra of the statement op: Python's float operators and the `math` functions the generator uses -/
+
+/-- `n × 2^e2`, rounded to nearest even (`sticky`: the true value is a little larger; `n` has more than 53 bits then) -/
+def roundNat (n : Nat) (sticky : Bool) (e2 : Int) : Float :=
+  let len := if n = 0 then 0 else n.log2 + 1
+  if len ≤ 53 then (Float.ofNat n).scaleB e2
+  else
+    let sh := len - 53
+    let top := n >>> sh
+    let rem := n % (2 ^ sh)
+    let half := 2 ^ (sh - 1)
+    let up := rem > half || (rem == half && (sticky || top % 2 == 1))
+    (Float.ofNat (if up then top + 1 else top)).scaleB (e2 + sh)
+
+/-- `m × 10^e10` correctly rounded (Python's `float(text)`) -/
+def decimalToFloat (m : Nat) (e10 : Int) : Float :=
+  if e10 ≥ 0 then roundNat (m * 10 ^ e10.toNat) false 0
+  else
+    let d := 10 ^ (-e10).toNat
+    let s := 64 + d.log2 + 1
+    roundNat ((m <<< s) / d) ((m <<< s) % d != 0) (-(s : Int))
+
+def digitsVal (cs : List Char) : Nat := cs.foldl (fun a c => a * 10 + (c.toNat - 48)) 0
+
+/-- the forms of lark's `common.NUMBER`: digits, optional `.`, digits, optional exponent -/
+def numberOfText (s : String) : Option Float :=
+  let cs := s.toList
+  let (ip, r1) := cs.span Char.isDigit
+  let (fp, r2) := match r1 with
+    | '.' :: r => r.span Char.isDigit
+    | r => ([], r)
+  if (ip ++ fp).isEmpty then none else
+  let e10 : Option Int := match r2 with
+    | [] => some 0
+    | c :: r =>
+      if c == 'e' || c == 'E' then
+        let (neg, r) := match r with
+          | '-' :: r => (true, r)
+          | '+' :: r => (false, r)
+          | r => (false, r)
+        if r.isEmpty || !r.all Char.isDigit then none
+        else some (if neg then -(digitsVal r : Int) else (digitsVal r : Int))
+      else none
+  e10.map (fun e => decimalToFloat (digitsVal (ip ++ fp)) (e - fp.length))
+
+/-- `math_1` of `mathmodule.c`: a NaN from a number, or an infinity from a finite number, is an error -/
+def math1 (fn : Float → Float) (canOverflow : Bool) (x : Float) : Except MErr Float :=
+  let r := fn x
+  if r.isNaN && !x.isNaN then .error (.other "ValueError")
+  else if r.isInf && x.isFinite then .error (.other (if canOverflow then "OverflowError" else "ValueError"))
+  else .ok r
+
+/-- `float.__pow__` where the result is a float: `0 ** negative` raises `ZeroDivisionError`, an overflow raises; a
+    negative base with a fractional exponent is complex in Python — not a value of this algebra -/
+def pyPow (a b : Float) : Except MErr Float :=
+  if a == 0.0 && b < 0.0 then .error .zeroDiv
+  else if a < 0.0 && a.isFinite && b.isFinite && b.floor != b then .error (.other "unsupported")
+  else
+    let r := Float.pow a b
+    if r.isInf && a.isFinite && b.isFinite then .error (.other "OverflowError") else .ok r
+
+/-- the algebra without variables (they come from the environment of `MadxAssign`): a name no environment holds is
+    `MadxEval.var`'s exception -/
+def floatOps (elems : List ((String × String) × Float)) : Ops Float where
+  number := fun t => (numberOfText t).getD (0.0 / 0.0)
+  add := fun a b => .ok (a + b)
+  sub := fun a b => .ok (a - b)
+  mul := fun a b => .ok (a * b)
+  div := fun a b => if b == 0.0 then .error .zeroDiv else .ok (a / b)
+  pow := pyPow
+  neg := fun a => .ok (-a)
+  pos := fun a => .ok a
+  var := fun _ => .error (.other "Exception")
+  getitem := fun e k => match elems.lookup (e, k) with
+    | some v => .ok v
+    | none => .error (.other "KeyError")
+  call := fun f xs => match f, xs with
+    | "sin", [x] => math1 Float.sin false x
+    | "cos", [x] => math1 Float.cos false x
+    | "sqrt", [x] => math1 Float.sqrt false x
+    | "exp", [x] => math1 Float.exp true x
+    | "fabs", [x] => .ok x.abs
+    | "atan2", [y, x] => .ok (Float.atan2 y x)
+    | _, _ => .error (.other "unsupported")
+  nan := 0.0 / 0.0
+
+def envOfList (l : List (String × Float)) : Env Float := fun y => l.lookup y
+
+def valJson (x : Float) : Json := if x.isNaN then .str "nan" else .str (DOpt.floatToHex x)
+
+def errName : MErr → String
+  | .zeroDiv => "ZeroDivisionError"
+  | .other s => s
+
+/-- what the assigned variables hold -/
+def envJson (targets : List String) : Except MErr (Env Float) → Json
+  | .error e => Json.mkObj [("exc", .str (errName e))]
+  | .ok env => Json.mkObj [("ok", Json.mkObj (targets.map (fun t => (t, match env t with
+      | some v => valJson v
+      | none => .null))))]
+
+def pairsOfJson (j : Json) : Option (List (String × Float)) :=
+  match j with
+  | .arr a => a.toList.mapM (fun p => match p with
+    | .arr q => (match q.toList with
+      | [.str n, .str h] => (DOpt.floatOfHex h).map (fun x => (n, x))
+      | _ => none)
+    | _ => none)
+  | _ => none
+
+def elemsOfJson (j : Json) : Option (List ((String × String) × Float)) :=
+  match j with
+  | .arr a => a.toList.mapM (fun p => match p with
+    | .arr q => (match q.toList with
+      | [.str e, .str k, .str h] => (DOpt.floatOfHex h).map (fun x => ((e, k), x))
+      | _ => none)
+    | _ => none)
+  | _ => none
+
+def stmtsOfJson (j : Json) : Option (List (List Tok)) :=
+  match j with
+  | .arr a => a.toList.mapM (fun s => match s with
+    | .arr toks => toks.toList.mapM tokOfJson
+    | _ => none)
+  | _ => none
+
+def numbersOK (ts : List Tok) : Bool :=
+  ts.all (fun t => match t with
+    | .num s => (numberOfText s).isSome
+    | _ => true)
+
+/-- one statement list: `runDef` then `DState.update` per later update on one side, `runImm` re-run from scratch on the
+    updated plain values on the other — the two sides of `C19_assign_deferred_eq_immediate` / `_follows_updates`;
+    `wo` is the scope test `WellOrdered` of those theorems -/
+def assignStep (j : Json) (stmtToks : List (List Tok)) : Json :=
+  match (j.getObjVal? "plain").toOption.bind pairsOfJson, (j.getObjVal? "elems").toOption.bind elemsOfJson,
+        (j.getObjVal? "updates").toOption.bind pairsOfJson with
+  | some plainL, some elems, some updates =>
+    if !stmtToks.all numbersOK then Json.mkObj [("bad-op", .str "number")] else
+    match stmtToks.mapM parseStmt with
+    | none => Json.mkObj [("assign", Json.mkObj [("parsed", .bool false)])]
+    | some ss =>
+      let ops := floatOps elems
+      let plain := envOfList plainL
+      let targets := (assigned ss).eraseDups
+      let st0 := runDef ops ⟨plain, []⟩ ss
+      -- the prefixes of the update list
+      let steps := (List.range (updates.length + 1)).map (fun k =>
+        let us := updates.take k
+        let d := st0.bind (fun st => (st.updates us).env ops)
+        let i := runImm ops (plain.sets us) ss
+        Json.mkObj [("def", envJson targets d), ("imm", envJson targets i)])
+      Json.mkObj [("assign", Json.mkObj [("parsed", .bool true), ("wo", .bool (WellOrdered ss)),
+        ("updates_outside_assigned", .bool (updates.all (fun u => !(assigned ss).contains u.1))),
+        ("targets", .arr (targets.map Json.str).toArray), ("steps", .arr steps.toArray)])]
+  | _, _, _ => Json.mkObj [("bad-op", .str "assign-fields")]
+
 def step (j : Json) : Json :=
+  match (j.getObjVal? "stmt_tokens").toOption with
+  | some (.arr a) =>
+    (match stmtsOfJson (.arr a) with
+     | some st => assignStep j st
+     | none => Json.mkObj [("bad-op", .str "token")])
+  | _ =>
   match (j.getObjVal? "tokens").toOption with
   | some (.arr toks) =>
     (match toks.toList.mapM tokOfJson with
